@@ -1,4 +1,4 @@
 From Coq Require Extraction ExtrOcamlBasic.
-From Wz Require Import lib.Bytes lib.ExtractBase C20.Types C20.Gen C20.Model.
+From Wz Require Import lib.Bytes lib.ExtractBase C20.Types C20.Str C20.Gen C20.Model.
 Extraction Language OCaml.
-Extraction "C20/model_extracted.ml" force_types host_is_trusted get_host strip_port parse_int run run_hist check_pin_trust creates_console_frame.
+Extraction "C20/model_extracted.ml" force_types host_is_trusted get_host request_host wsgi_get_host strip_port parse_int run run_hist check_pin_trust creates_console_frame.
